@@ -76,6 +76,13 @@ func main() {
 					ok = true
 				}
 			}
+			if *tier == "thorough" {
+				for _, p := range h.PropsThorough {
+					if p == *prop {
+						ok = true
+					}
+				}
+			}
 			if !ok {
 				continue
 			}
@@ -88,6 +95,7 @@ func main() {
 			b, _ := json.Marshal(h.Thorough)
 			json.Unmarshal(b, h)
 		}
+		h.SharedWrites = true
 		sel = append(sel, h)
 	}
 	if len(sel) == 0 {
@@ -160,7 +168,12 @@ func main() {
 			v := &r.Violations[vi]
 			// assertion tags start with the property they belong to ("C05: ..."); a harness shared by
 			// several properties reports to each check only its own assertions (panics go to all)
-			if *prop != "" && len(v.Tag) > 4 && v.Tag[0] == 'C' && v.Tag[3] == ':' && v.Tag[:3] != *prop {
+			if v.Kind == "shared-write" {
+				// isolation of instances: belongs to C16 and C17
+				if *prop != "C16" && *prop != "C17" && *prop != "" {
+					continue
+				}
+			} else if *prop != "" && len(v.Tag) > 4 && v.Tag[0] == 'C' && v.Tag[3] == ':' && v.Tag[:3] != *prop {
 				continue
 			}
 			if v.Known != "" {
